@@ -418,6 +418,10 @@ def replay(case):
             acc = call_site_accepts(a, b)
             if acc is not None and acc != asg:
                 bad = True
+            accw = call_site_accepts(a, b, warm=True)
+            if accw is not None and accw != asg:
+                print("subroutine parameter", b, "after a call with its own type: accepts" if accw else "rejects", a)
+                bad = True
             if isinstance(a, (abi.TupleTypeSpec, abi.ArrayTypeSpec)) and norm(b)[0] not in ("ref", "txn"):
                 for site, et, acc5 in element_sites(a, b):
                     if acc5 and norm(et) != norm(b):
